@@ -74,8 +74,9 @@ PROPS["C16"] = dict(
 PROPS["C17"] = dict(
     pkg="./props/store", level="fault_enumeration", design_ref="DESIGN.md §3 C17, Appendix D",
     technique="fault enumeration inside property-based testing: rapid-generated histories, every kill / torn-write / power-loss image of the interrupted file-store operation materialised from crash-point hook snapshots and reopened against before/after models; SQL statement failures injected through a wrapping database/sql driver",
-    stages=[dict(name="file", kind="rapid", run="^TestC17_FileCrash$", checks=(60, 2500), shards=(12, 16), timeout=(600, 3000))],
-    require=["image:kill", "image:torn", "image:powerloss"],
+    stages=[dict(name="file", kind="rapid", run="^TestC17_FileCrash$", checks=(150, 3000), shards=(12, 16), timeout=(600, 3000)),
+            dict(name="sql", kind="rapid", run="^TestC17_SQLFault$", checks=(100, 1500), shards=(8, 16), timeout=(600, 3000))],
+    require=["image:kill", "image:torn", "image:powerloss", "sql:fail@begin", "sql:fail@exec1", "sql:fail@exec2", "sql:fail@commit"],
     assumptions=["torn-write model: bytes of the in-flight write reach the file in order and may be cut at any byte; power-loss model: a file keeps its content as of its last fsync (files created by the operation exist empty, removals are durable)",
                  "histories are session-like: the sender counter advances only through save-and-increment"],
 )
